@@ -200,6 +200,117 @@ def perturb_conflicting_placeholder(rng, frag):
     return 'one-placeholder-for-two-identifiers'
 
 
+def perturb_callee_and_argument(rng, frag):
+    """one _name_ placeholder on the callee of a call and on a (different) variable among its arguments"""
+    calls = [n for n in ast.walk(frag) if isinstance(n, ast.Call) and isinstance(n.func, ast.Name) and not n.func.id.startswith('_')
+             and any(isinstance(a, ast.Name) and a.id != n.func.id and not a.id.startswith('_') for a in n.args)]
+    if not calls:
+        return None
+    c = rng.choice(calls)
+    arg = rng.choice([a for a in c.args if isinstance(a, ast.Name) and a.id != c.func.id and not a.id.startswith('_')])
+    old_f, old_a = c.func.id, arg.id
+    for n in ast.walk(frag):
+        if isinstance(n, ast.Name) and n.id in (old_f, old_a):
+            n.id = '_same_'
+    return 'one-placeholder-for-callee-and-argument'
+
+
+def perturb_other_callee_under_operator(rng, frag, idents):
+    """the callee of a call that is an operand of + or * replaced by another function name of the program"""
+    spots = []
+    for n in ast.walk(frag):
+        if isinstance(n, ast.BinOp) and isinstance(n.op, (ast.Add, ast.Mult)):
+            for side in (n.left, n.right):
+                if isinstance(side, ast.Call) and isinstance(side.func, ast.Name):
+                    spots.append(side)
+    if not spots:
+        return None
+    c = rng.choice(spots)
+    c.func.id = 'absent_function_zq'
+    return 'absent-identifier'
+
+
+def sub_queries(ctx, rng, src, pattern, matches):
+    """A sub-query on the subtree an __expr__ placeholder is bound to, with a sub-pattern that uses the same placeholder name
+    again: every sub-match must be an embedding of the sub-pattern too (its __expr__ is what stands at that position)."""
+    root = student_root()
+    for m in matches[:3]:
+        for ph, bound in list(m.exp_table.items())[:2]:
+            node = getattr(bound, 'astNode', None)
+            if not isinstance(node, ast.expr):
+                continue
+            inner = [n for n in ast.walk(node) if n is not node and isinstance(n, ast.expr) and not isinstance(n, (ast.Name, ast.Constant))
+                     or (n is not node and isinstance(n, (ast.Name, ast.Constant)))]
+            inner = [n for n in inner if isinstance(n, ast.expr) and not isinstance(getattr(n, 'ctx', None), ast.Store)]
+            if not inner:
+                continue
+            target = rng.choice(inner)
+            frag = cc.clone(node)
+            # find the clone of `target` by position in the walk order
+            order = [n for n in ast.walk(node)]
+            corder = [n for n in ast.walk(frag)]
+            try:
+                twin = corder[[id(n) for n in order].index(id(target))]
+            except ValueError:
+                continue
+            par = cc.parent_map(frag).get(id(twin))
+            if par is None:
+                continue
+            holder, field, idx = par
+            new = ast.Name(id=ph, ctx=ast.Load())
+            if idx is None:
+                setattr(holder, field, new)
+            else:
+                getattr(holder, field)[idx] = new
+            try:
+                sub_pattern = ast.unparse(ast.fix_missing_locations(ast.Expr(value=frag)))
+                ast.parse(sub_pattern)
+            except Exception:
+                continue
+            case = {'src': src[:3500], 'pattern': pattern, 'perturbation': 'sub-query', 'sub_pattern': sub_pattern, 'placeholder': ph}
+            try:
+                subs = m[ph].find_matches(sub_pattern)        # the documented idiom: the earlier match's bindings carry over
+            except Exception as e:
+                ctx.violation('C10|sub-query-raised|%s|%s' % (type(e).__name__, site_of(e)), case, traceback.format_exc()[-400:])
+                continue
+            ctx.count('sub_queries_checked')
+            for sm in subs[:10]:
+                problems = []
+                try:
+                    cc.check_witness(sm, sub_pattern, root, problems)
+                except Exception as e:
+                    ctx.note('witness checker error in sub-query: %r on %r' % (e, sub_pattern[:200]))
+                    continue
+                ctx.count('sub_matches_witness_checked')
+                for pk, detail in problems[:3]:
+                    ctx.violation('C10|not-an-embedding|%s|sub-query-reusing-the-placeholder' % pk, case, detail)
+
+
+def commutative_conflicts(rng, tree, k=4):
+    """+ and * are matched with their operands in either order, by a code path of their own: patterns whose root is such an
+    operation of the program, with ONE placeholder put on a name of the left operand and on a different name of the right one"""
+    out = []
+    ops = [n for n in ast.walk(tree) if isinstance(n, ast.BinOp) and isinstance(n.op, (ast.Add, ast.Mult)) and len(ast.unparse(n)) < 160]
+    rng.shuffle(ops)
+    for n in ops:
+        callee = {id(c.func) for c in ast.walk(n) if isinstance(c, ast.Call)}
+        left = sorted({x.id for x in ast.walk(n.left) if isinstance(x, ast.Name) and id(x) not in callee and not x.id.startswith('_')})
+        right = sorted({x.id for x in ast.walk(n.right) if isinstance(x, ast.Name) and id(x) not in callee and not x.id.startswith('_')})
+        pairs = [(a, b) for a in left for b in right if a != b]
+        if not pairs:
+            continue
+        a, b = rng.choice(pairs)
+        frag = cc.clone(n)
+        fcallee = {id(c.func) for c in ast.walk(frag) if isinstance(c, ast.Call)}
+        for x in ast.walk(frag):
+            if isinstance(x, ast.Name) and x.id in (a, b) and id(x) not in fcallee:
+                x.id = '_same_'
+        out.append(ast.Module(body=[ast.Expr(value=frag)], type_ignores=[]))
+        if len(out) >= k:
+            break
+    return out
+
+
 def run_program(ctx, rng, src, origin, foreign_patterns):
     from pedal.core.commands import clear_report, contextualize_report
     try:
@@ -213,10 +324,12 @@ def run_program(ctx, rng, src, origin, foreign_patterns):
         d = cc.derive(rng, tree)
         if d is None:
             continue
-        check(ctx, src, d.pattern, 'derived')
+        ms = check(ctx, src, d.pattern, 'derived')
         foreign_patterns.append(d.pattern)
+        if ms and '__' in d.pattern:
+            sub_queries(ctx, rng, src, d.pattern, ms)
         # perturbations of the same fragment
-        for fn in rng.sample(['absent-identifier', 'absent-literal', 'literal-type', 'look-alike', 'swap', 'conflict'], 3):
+        for fn in rng.sample(['absent-identifier', 'absent-literal', 'literal-type', 'look-alike', 'swap', 'conflict', 'callee-and-argument', 'callee-under-operator'], 4):
             frag = cc.clone(d.fragment)
             if fn == 'absent-identifier':
                 kind = perturb_absent_identifier(rng, frag)
@@ -228,6 +341,10 @@ def run_program(ctx, rng, src, origin, foreign_patterns):
                 kind = perturb_look_alike_literal(rng, frag, consts)
             elif fn == 'swap':
                 kind = perturb_swap_siblings(rng, frag)
+            elif fn == 'callee-and-argument':
+                kind = perturb_callee_and_argument(rng, frag)
+            elif fn == 'callee-under-operator':
+                kind = perturb_other_callee_under_operator(rng, frag, idents)
             else:
                 kind = perturb_conflicting_placeholder(rng, frag)
             if kind is None:
@@ -247,7 +364,16 @@ def run_program(ctx, rng, src, origin, foreign_patterns):
             f2 = cc.clone(frag)
             kind = perturb_conflicting_placeholder(rng, f2)
             if kind:
+                ctx.seen('perturbations', 'expression-pattern|' + kind)
                 check(ctx, src, ast.unparse(ast.fix_missing_locations(f2)), 'expression-pattern|' + kind)
+            f4 = cc.clone(frag)
+            kind = perturb_callee_and_argument(rng, f4)
+            if kind:
+                check(ctx, src, ast.unparse(ast.fix_missing_locations(f4)), 'expression-pattern|' + kind)
+            f5 = cc.clone(frag)
+            kind = perturb_other_callee_under_operator(rng, f5, idents)
+            if kind:
+                check(ctx, src, ast.unparse(ast.fix_missing_locations(f5)), kind, must_be_empty=True)
             f3 = cc.clone(frag)
             names = sorted({n.id for n in ast.walk(f3) if isinstance(n, ast.Name) and not n.id.startswith('_')} - {n.func.id for n in ast.walk(f3) if isinstance(n, ast.Call) and isinstance(n.func, ast.Name)})
             if names:
@@ -256,6 +382,13 @@ def run_program(ctx, rng, src, origin, foreign_patterns):
                     if isinstance(n, ast.Name) and n.id == target:
                         n.id = '_x_'
                 check(ctx, src, ast.unparse(ast.fix_missing_locations(f3)), 'expression-pattern|one-name-generalised')
+        except RecursionError:
+            pass
+    for frag in commutative_conflicts(rng, tree):
+        try:
+            ctx.seen('perturbations', 'commutative-operation|one-placeholder-for-two-identifiers')
+            ctx.count('commutative_conflict_patterns')
+            check(ctx, src, ast.unparse(ast.fix_missing_locations(frag)), 'commutative-operation|one-placeholder-for-two-identifiers')
         except RecursionError:
             pass
     # patterns cut from other programs
